@@ -212,6 +212,8 @@ type fwRig struct {
 	dconn *rtpDownConnection
 	w     *fwWriter
 	tr    *vTrace
+	held  []any // events held back (pair mode) until flush
+	hold  bool
 	pk    map[int]*fwPkt
 	tn    uint16 // seqno of position hi+1
 	lastOut int
@@ -258,9 +260,25 @@ func fwNewRig(tr *vTrace, cfg fwStreamCfg, start int, cachesz int, kind string) 
 	down.conn = dconn
 	r := &fwRig{cfg: cfg, up: up, down: down, dconn: dconn, w: w, tr: tr, pk: map[int]*fwPkt{},
 		tn: uint16(start), hi: -1, start: start}
-	tr.Emit(map[string]any{"ev": "New", "start": start, "codec": cfg.codec, "pidm": cfg.pidm, "kind": kind,
+	r.hold = kind == "pair-second"
+	r.emit(map[string]any{"ev": "New", "start": start, "codec": cfg.codec, "pidm": cfg.pidm, "kind": kind,
 		"cache": cachesz})
 	return r
+}
+
+func (r *fwRig) emit(ev any) {
+	if r.hold {
+		r.held = append(r.held, ev)
+		return
+	}
+	r.tr.Emit(ev)
+}
+
+func (r *fwRig) flush() {
+	for _, ev := range r.held {
+		r.tr.Emit(ev)
+	}
+	r.held = nil
 }
 
 func (r *fwRig) drainActions() {
@@ -381,11 +399,16 @@ func (r *fwRig) packet(pos int, mk func() (fwTruth, int)) *fwPkt {
 
 // what readLoop does before handing the packet to the writers, then Write as rtpWriterLoop does
 func (r *fwRig) deliver(p *fwPkt, store bool) {
+	r.deliverBuf(p, store, bytes.Clone(p.buf))
+}
+
+// in: the buffer handed to Write (rtpWriterLoop hands the SAME buffer to every down track of a
+// writer in turn)
+func (r *fwRig) deliverBuf(p *fwPkt, store bool, in []byte) {
 	off := p.pos - r.hi
 	if store {
 		r.up.cache.Store(p.seq, p.ts, p.truth.Kf != 0, p.truth.Marker != 0, p.buf)
 	}
-	in := bytes.Clone(p.buf)
 	lb := fwLayerOf(r.down)
 	r.w.out = r.w.out[:0]
 	n, err := r.down.Write(in)
@@ -421,7 +444,7 @@ func (r *fwRig) deliver(p *fwPkt, store bool) {
 		r.tn = p.seq + 1
 	}
 	p.arrived = true
-	r.tr.Emit(ev)
+	r.emit(ev)
 }
 
 func (r *fwRig) nack(o uint16) {
@@ -451,7 +474,7 @@ func (r *fwRig) nack(o uint16) {
 		}
 		wr = append(wr, w)
 	}
-	r.tr.Emit(map[string]any{"ev": "N", "o": int(o), "wr": wr, "lb": lb, "la": la})
+	r.emit(map[string]any{"ev": "N", "o": int(o), "wr": wr, "lb": lb, "la": la})
 }
 
 func (r *fwRig) adjust(dir string) {
@@ -473,7 +496,7 @@ func (r *fwRig) adjust(dir string) {
 	lb := fwLayerOf(r.down)
 	r.down.adjustLayer()
 	la := fwLayerOf(r.down)
-	r.tr.Emit(map[string]any{"ev": "Adj", "dir": dir, "lb": lb, "la": la})
+	r.emit(map[string]any{"ev": "Adj", "dir": dir, "lb": lb, "la": la})
 }
 
 func (r *fwRig) report(loss uint8, stale bool) {
@@ -485,14 +508,14 @@ func (r *fwRig) report(loss uint8, stale bool) {
 	lb := fwLayerOf(r.down)
 	handleReport(r.down, rtcp.ReceptionReport{FractionLost: loss}, now)
 	la := fwLayerOf(r.down)
-	r.tr.Emit(map[string]any{"ev": "Rate", "loss": int(loss), "ceil": int(r.down.maxBitrate.bitrate), "lb": lb, "la": la})
+	r.emit(map[string]any{"ev": "Rate", "loss": int(loss), "ceil": int(r.down.maxBitrate.bitrate), "lb": lb, "la": la})
 }
 
 func (r *fwRig) limit(lim bool) {
 	lb := fwLayerOf(r.down)
 	_, err := replaceTracks(r.dconn, []conn.UpTrack{r.up}, lim)
 	la := fwLayerOf(r.down)
-	r.tr.Emit(map[string]any{"ev": "Lim", "lim": vB(lim), "err": vB(err != nil), "lb": lb, "la": la})
+	r.emit(map[string]any{"ev": "Lim", "lim": vB(lim), "err": vB(err != nil), "lb": lb, "la": la})
 }
 
 // ---------------------------------------------------------------- scenario 1: SeqMap behaviours
@@ -522,7 +545,7 @@ func fwReplaySeq(tr *vTrace, cfg fwStreamCfg, start int, ops [][]int, kind strin
 			l := r.down.getLayerInfo()
 			l.maxTid, l.tid, l.wantedTid = 1, 0, 0
 			r.down.setLayerInfo(l)
-			tr.Emit(map[string]any{"ev": "Pin", "la": fwLayerOf(r.down)})
+			r.emit(map[string]any{"ev": "Pin", "la": fwLayerOf(r.down)})
 			continue
 		}
 		r.deliver(p, true)
@@ -632,7 +655,127 @@ func fwRandomStream(tr *vTrace, r0 *rand.Rand, cfg fwStreamCfg, nframes int, kin
 	_ = maxT
 }
 
+// two receivers served by one writer: as in rtpWriterLoop, the packet is read from the cache
+// once and the same buffer is passed to both down tracks, the first of which sits on a lower
+// temporal layer (non-zero seqno delta and picture-id shift)
+func fwPairStream(tr *vTrace, r0 *rand.Rand, cfg fwStreamCfg, npk int) {
+	start := []int{0, 65530, 57344, 100, r0.Intn(65536)}[r0.Intn(5)]
+	a := fwNewRig(tr, cfg, start, 64, "pair-first")
+	b := fwNewRig(tr, cfg, start, 64, "pair-second")
+	for pos := 0; pos < npk; pos++ {
+		t := fwTruth{Pid: ((pos/2)%cfg.pidm + cfg.pidm - 2) % cfg.pidm, Tid: (pos / 2) % 2,
+			Start: vB(pos%2 == 0), End: vB(pos%2 == 1), Marker: vB(pos%2 == 1)}
+		if pos == 0 {
+			t.Kf, t.Tidup = 1, 1
+		}
+		if pos < 2 {
+			t.Tid = 0
+		}
+		size := 40 + r0.Intn(300)
+		pa := a.packet(pos, func() (fwTruth, int) { return t, size })
+		pb := b.packet(pos, func() (fwTruth, int) { return t, size })
+		if pos == 2 {
+			// both receivers have seen two temporal layers; the first one selects layer 0
+			for i, r := range []*fwRig{a, b} {
+				l := r.down.getLayerInfo()
+				l.maxTid, l.tid, l.wantedTid = 1, uint8(i), uint8(i)
+				r.down.setLayerInfo(l)
+				r.emit(map[string]any{"ev": "Pin", "la": fwLayerOf(r.down)})
+			}
+		}
+		shared := bytes.Clone(pa.buf)
+		a.deliverBuf(pa, true, shared)
+		b.deliverBuf(pb, true, shared)
+	}
+	b.flush()
+}
+
+// sets the bandwidth regime so that the adjustLayer call inside Write goes the given way
+func (r *fwRig) regime(dir string) {
+	now := rtptime.Jiffies()
+	r.down.maxREMBBitrate.Set(0, now)
+	if dir == "down" {
+		r.down.maxBitrate.Set(9600, now)
+		r.down.rate.Accumulate(100000)
+		time.Sleep(2500 * time.Microsecond)
+	} else {
+		r.down.maxBitrate.Set(1<<30, now)
+	}
+}
+
+// replays a behaviour of Sim_Forward.tla: packets with the given ground-truth flags, in order,
+// interleaved with feedback-driven adjustLayer calls and limitSid requests
+func fwReplayFlags(tr *vTrace, cfg fwStreamCfg, ops [][]any, start int) {
+	r := fwNewRig(tr, cfg, start, 64, "tlc-flags")
+	pid := cfg.pidm - 2
+	pos := 0
+	num := func(x any) int { return int(x.(float64)) }
+	for _, op := range ops {
+		switch op[0].(string) {
+		case "P":
+			t := fwTruth{Tid: num(op[1]), Sid: num(op[2]), Start: num(op[3]), End: num(op[4]), Kf: num(op[5]),
+				Tidup: num(op[6]), Nonref: num(op[7]), Marker: num(op[8])}
+			if t.Start != 0 {
+				pid = (pid + 1) % cfg.pidm
+			}
+			t.Pid = pid
+			dir := op[9].(string)
+			li := r.down.getLayerInfo()
+			if uint8(t.Tid) > li.maxTid || uint8(t.Sid) > li.maxSid {
+				r.regime(dir)
+			}
+			pp := pos
+			p := r.packet(pp, func() (fwTruth, int) { return t, 40 + (pp*31)%500 })
+			pos++
+			r.deliver(p, true)
+		case "A":
+			r.adjust(op[1].(string))
+		case "L":
+			r.limit(num(op[1]) != 0)
+		}
+	}
+}
+
+// a receiver on temporal layer 0 while the publisher sends a very long run of layer-1 packets:
+// more than 8192 consecutive withheld packets, then forwarding resumes
+func fwLongDrop(tr *vTrace, r0 *rand.Rand, cfg fwStreamCfg) {
+	start := []int{0, 65000, 57344, r0.Intn(65536)}[r0.Intn(4)]
+	r := fwNewRig(tr, cfg, start, 64, "longdrop")
+	run := []int{8191, 8192, 8193, 8200, 9000}[r0.Intn(5)]
+	pos := 0
+	pid := r0.Intn(cfg.pidm)
+	send := func(tid int, kf bool) {
+		t := fwTruth{Pid: pid, Tid: tid, Start: 1, End: 1, Marker: 1, Kf: vB(kf), Tidup: vB(kf)}
+		pp := pos
+		p := r.packet(pp, func() (fwTruth, int) { return t, 60 })
+		pos++
+		pid = (pid + 1) % cfg.pidm
+		r.deliver(p, true)
+	}
+	send(0, true)
+	l := r.down.getLayerInfo()
+	l.maxTid, l.tid, l.wantedTid = 1, 0, 0
+	r.down.setLayerInfo(l)
+	r.emit(map[string]any{"ev": "Pin", "la": fwLayerOf(r.down)})
+	for i := 0; i < 6; i++ {
+		send(i%2, false)
+	}
+	for i := 0; i < run; i++ {
+		send(1, false)
+	}
+	for i := 0; i < 40; i++ {
+		send(i%2, false)
+		if i%7 == 3 {
+			r.nack(uint16(r.lastOut - r0.Intn(3)))
+		}
+	}
+}
+
 type fwScript struct {
+	Flags []struct {
+		Codec string  `json:"codec"`
+		Ops   [][]any `json:"ops"`
+	} `json:"flags"`
 	Seq []struct {
 		Start int     `json:"start"`
 		Ops   [][]int `json:"ops"`
@@ -654,7 +797,21 @@ func TestVerifForward(t *testing.T) {
 	}
 	n := vEnvInt("VERIF_N", 20)
 	nf := vEnvInt("VERIF_LEN", 150)
+	starts := []int{0, 65530, 57344, 32768, 12345}
+	for i, b := range sc.Flags {
+		c := cfgs[i%3]
+		if b.Codec == "vp9" {
+			c = cfgs[3+i%2]
+		}
+		fwReplayFlags(tr, c, b.Ops, starts[i%len(starts)])
+	}
+	for i := 0; i < vEnvInt("VERIF_LONGDROP", 1); i++ {
+		fwLongDrop(tr, r0, cfgs[i%2])
+	}
 	for i := 0; i < n; i++ {
 		fwRandomStream(tr, r0, cfgs[i%len(cfgs)], nf, "layered")
+	}
+	for i := 0; i < 1+n/10; i++ {
+		fwPairStream(tr, r0, cfgs[i%3], 60)
 	}
 }
